@@ -53,6 +53,8 @@ func TestC20RealClientSync(t *testing.T) {
 		type script struct {
 			Steps []c20Step `json:"steps"`
 			Pause int       `json:"sync_pause_us"`
+			// Workers: the steps are dealt out to 1-3 goroutines of the application (step i goes to goroutine i mod Workers)
+			Workers int `json:"workers"`
 		}
 		scripts := make([]script, 2)
 		for ci := range scripts {
@@ -74,6 +76,7 @@ func TestC20RealClientSync(t *testing.T) {
 				scripts[ci].Steps = append(scripts[ci].Steps, st)
 			}
 			scripts[ci].Pause = rapid.SampledFrom([]int{0, 50, 300}).Draw(rt, fmt.Sprintf("pause%d", ci))
+			scripts[ci].Workers = rapid.IntRange(1, 3).Draw(rt, fmt.Sprintf("workers%d", ci))
 		}
 		c.j.Header = map[string]interface{}{"kind": kind, "id_seed": idseed, "scripts": scripts}
 		var clients []*c05rClient
@@ -140,51 +143,57 @@ func TestC20RealClientSync(t *testing.T) {
 			d := rc.dts[k.Name]
 			var inTx, done int32
 			var swg sync.WaitGroup
-			wg.Add(2)
-			swg.Add(1)
-			go func(ci int, sc script) { // the application's worker
-				defer wg.Done()
-				defer swg.Done()
-				defer func() {
-					if p := recover(); p != nil {
-						note(fmt.Sprintf("client %d: a call panicked: %v", ci, p))
+			wg.Add(1)
+			for wi := 0; wi < scripts[ci].Workers; wi++ {
+				wg.Add(1)
+				swg.Add(1)
+				go func(ci int, sc script, wi int) { // one of the application's workers
+					defer wg.Done()
+					defer swg.Done()
+					defer func() {
+						if p := recover(); p != nil {
+							note(fmt.Sprintf("client %d: a call panicked: %v", ci, p))
+						}
+					}()
+					if ci == 0 && lateEntry && wi == 0 {
+						// the creator's first moments: transactions that stay open for a while (some fail), so that the answer
+						// to its very first sync arrives while one of them is running
+						for i := 0; i < 4; i++ {
+							atomicStore(&inTx, 1)
+							if r := c18ExecTx(kind, d.dt, c18Op{Call: c06CheapCall(kind, 9000+i), Tx: true, TxSleep: 300 * (i + 1), TxFail: i%2 == 0}); r.Panic != nil {
+								note(fmt.Sprintf("client %d: a transaction panicked: %v", ci, r.Panic))
+								return
+							}
+							atomicStore(&inTx, 0)
+						}
 					}
-				}()
-				if ci == 0 && lateEntry {
-					// the creator's first moments: transactions that stay open for a while (some fail), so that the answer
-					// to its very first sync arrives while one of them is running
-					for i := 0; i < 4; i++ {
+					for si, st := range sc.Steps {
+						if si%sc.Workers != wi {
+							continue
+						}
+						for y := 0; y < st.Yield; y++ {
+							runtime.Gosched()
+						}
+						if st.Call != nil {
+							if r := sim.Exec(kind, d.dt, *st.Call); r.Panic != nil {
+								note(fmt.Sprintf("client %d: %s panicked: %v", ci, st.Call, r.Panic))
+								return
+							}
+							continue
+						}
 						atomicStore(&inTx, 1)
-						if r := c18ExecTx(kind, d.dt, c18Op{Call: c06CheapCall(kind, 9000+i), Tx: true, TxSleep: 300 * (i + 1), TxFail: i%2 == 0}); r.Panic != nil {
-							note(fmt.Sprintf("client %d: a transaction panicked: %v", ci, r.Panic))
+						tx := sim.Tx{Tag: "t", Calls: st.Tx, FailAt: -1}
+						if st.Fail {
+							tx.FailAt = len(st.Tx)
+						}
+						if _, _, pan := sim.ExecTx(kind, d.dt, tx); pan != nil {
+							note(fmt.Sprintf("client %d: a transaction panicked: %v", ci, pan))
 							return
 						}
 						atomicStore(&inTx, 0)
 					}
-				}
-				for _, st := range sc.Steps {
-					for y := 0; y < st.Yield; y++ {
-						runtime.Gosched()
-					}
-					if st.Call != nil {
-						if r := sim.Exec(kind, d.dt, *st.Call); r.Panic != nil {
-							note(fmt.Sprintf("client %d: %s panicked: %v", ci, st.Call, r.Panic))
-							return
-						}
-						continue
-					}
-					atomicStore(&inTx, 1)
-					tx := sim.Tx{Tag: "t", Calls: st.Tx, FailAt: -1}
-					if st.Fail {
-						tx.FailAt = len(st.Tx)
-					}
-					if _, _, pan := sim.ExecTx(kind, d.dt, tx); pan != nil {
-						note(fmt.Sprintf("client %d: a transaction panicked: %v", ci, pan))
-						return
-					}
-					atomicStore(&inTx, 0)
-				}
-			}(ci, scripts[ci])
+				}(ci, scripts[ci], wi)
+			}
 			go func(ci int, rc *c05rClient, pause int) { // the application's sync loop
 				defer wg.Done()
 				for atomicLoad(&done) == 0 {
